@@ -77,6 +77,13 @@ func main() {
 		os.Exit(runReplay(*flagReplay))
 	}
 	switch *flagMode {
+	case "all":
+		// development aid for patch sweeps: load the tree once, run every rule
+		// once, and print the violations of every property in the format the
+		// sweep scripts read ("Cxx VIOLATION rule=… key=…"). No evidence, no
+		// controls, no known-finding filtering: the registered checks are the
+		// per-property ones.
+		os.Exit(runAllMode())
 	case "list":
 		for _, id := range propOrder {
 			fmt.Println(id, strings.Join(props[id].Rules, " "))
@@ -198,6 +205,47 @@ func safeRun(r *Rule, p *Prog) (out *RuleOut) {
 		}
 	}()
 	return r.Run(p)
+}
+
+func runAllMode() int {
+	p, err := Load(*flagRepo, nil, extraEnv(), true)
+	if err != nil {
+		for _, id := range propOrder {
+			fmt.Printf("%s LOAD ERROR %v\n", id, err)
+		}
+		return 1
+	}
+	done := map[string]*RuleOut{}
+	for _, id := range propOrder {
+		for _, rn := range props[id].Rules {
+			o, ok := done[rn]
+			if !ok {
+				if r := rules[rn]; r != nil {
+					o = safeRun(r, p)
+					for k, f := range o.Floors {
+						if o.Counts[k] < f {
+							o.viol("vacuity:"+k, "-", "", fmt.Sprintf("rule analysed %d %s, fewer than the floor %d", o.Counts[k], k, f))
+						}
+					}
+					sortObs(o.Obs)
+				}
+				done[rn] = o
+			}
+			if o == nil {
+				fmt.Printf("%s VIOLATION rule=%s key=\"rule-missing\"\n", id, rn)
+				continue
+			}
+			for _, ob := range o.Obs {
+				switch ob.Status {
+				case "violation":
+					fmt.Printf("%s VIOLATION rule=%s key=%q site=%s func=%s: %s\n", id, ob.Rule, ob.Key, ob.Site, ob.Func, ob.Detail)
+				case "undecided":
+					fmt.Printf("%s UNDECIDED rule=%s key=%q site=%s func=%s: %s\n", id, ob.Rule, ob.Key, ob.Site, ob.Func, ob.Detail)
+				}
+			}
+		}
+	}
+	return 0
 }
 
 func needSSA(spec *PropSpec) bool {
